@@ -515,6 +515,124 @@ def r10_6(rep: Report) -> None:
         raise AnalysisError(f'only {n_paths} box paths found in the server code')
 
 
+_KEY_IDENTITY_CALLS = {'KeyMaterial', 'binascii.a2b_hex', 'binascii.unhexlify', 'bytes.fromhex', 'bytes', 'a2b_hex',
+                       'unhexlify', 'list', 'tuple', 'sorted'}
+_KEY_IDENTITY_ATTRS = {'raw', 'KID', 'kid', 'hex'}
+
+
+def _not_identity(e: ast.AST) -> ast.AST | None:
+    """the first sub-expression that can change the bytes of a key id (anything but KeyMaterial(..).raw,
+    hex <-> bytes conversions and attribute reads of the key tuple), or None"""
+    if isinstance(e, (ast.Name, ast.Constant)):
+        return None
+    if isinstance(e, ast.Attribute):
+        if e.attr not in _KEY_IDENTITY_ATTRS:
+            return e
+        return _not_identity(e.value)
+    if isinstance(e, ast.Call):
+        cn = call_name(e) or ''
+        if cn not in _KEY_IDENTITY_CALLS and not (isinstance(e.func, ast.Attribute) and e.func.attr in ('keys', 'values')):
+            return e
+        for a in list(e.args) + [k.value for k in e.keywords]:
+            bad = _not_identity(a)
+            if bad is not None:
+                return bad
+        if isinstance(e.func, ast.Attribute) and e.func.attr in ('keys', 'values'):
+            return _not_identity(e.func.value)
+        return None
+    if isinstance(e, ast.Subscript):
+        return e if isinstance(e.slice, ast.Slice) else _not_identity(e.value)
+    return e
+
+
+def pssh_key_ids(rep: Report, rid: str) -> None:
+    """every pssh box built by a DRM system lists the key ids as they are (the bytes the tenc box and the
+    representation carry): the `key_ids=` argument is an empty list or a list of identity conversions of the
+    members of the key set - no byte swapping (PlayReady's little-endian GUID form belongs in the WRMHEADER
+    only), slicing or reordering of the bytes"""
+    n = 0
+    drm_trees = [rep.repo.tree(r) for r in rep.repo.py_files('dashlive/drm')]
+    for rel in rep.repo.py_files('dashlive/drm'):
+        tree = rep.repo.tree(rel)
+        for fn in [x for x in ast.walk(tree) if isinstance(x, ast.FunctionDef)]:
+            for call in [c for c in ast.walk(fn) if isinstance(c, ast.Call)
+                         and (call_name(c) or '').endswith('ContentProtectionSpecificBox')]:
+                arg = next((k.value for k in call.keywords if k.arg == 'key_ids'), None)
+                if arg is None:
+                    continue
+                n += 1
+                construct = f'{rel}::{fn.name}'
+                ver = next((norm(k.value) for k in call.keywords if k.arg == 'version'), '?')
+                key = f'key_ids of the version {ver} pssh'
+                chain: list[tuple[ast.AST, ast.AST, int]] = [(arg, fn, call.lineno)]
+                seen: set[int] = set()
+                bad = None
+                why = ''
+                steps = 0
+                while chain and steps < 200:
+                    steps += 1
+                    e, ctx, limit = chain.pop()
+                    if isinstance(e, ast.Name):
+                        defs = [a for a in ast.walk(ctx) if isinstance(a, (ast.Assign, ast.AnnAssign)) and a.lineno < limit
+                                and getattr(a, 'value', None) is not None and id(a) not in seen
+                                and any(isinstance(t, ast.Name) and t.id == e.id
+                                        for t in (a.targets if isinstance(a, ast.Assign) else [a.target]))]
+                        for a in defs:
+                            seen.add(id(a))
+                            chain.append((a.value, ctx, limit))
+                        continue
+                    if isinstance(e, (ast.List, ast.Tuple)):
+                        chain.extend((x, ctx, limit) for x in e.elts)
+                        continue
+                    if isinstance(e, (ast.ListComp, ast.GeneratorExp)):
+                        chain.append((e.elt, ctx, limit))
+                        chain.extend((g.iter, ctx, limit) for g in e.generators)
+                        continue
+                    if isinstance(e, ast.IfExp):
+                        chain.extend([(e.body, ctx, limit), (e.orelse, ctx, limit)])
+                        continue
+                    # a helper of the same module: what it returns
+                    if isinstance(e, ast.Call) and id(e) not in seen:
+                        nm = e.func.attr if isinstance(e.func, ast.Attribute) else (e.func.id if isinstance(e.func, ast.Name) else '')
+                        helpers = [h for t_ in drm_trees for h in ast.walk(t_) if isinstance(h, ast.FunctionDef) and h.name == nm]
+                        if len(helpers) == 1 and (call_name(e) or '') not in _KEY_IDENTITY_CALLS and nm not in ('keys', 'values'):
+                            seen.add(id(e))
+                            rets = [r.value for r in ast.walk(helpers[0]) if isinstance(r, ast.Return) and r.value is not None]
+                            if rets:
+                                chain.extend((r, helpers[0], 10 ** 9) for r in rets)
+                                continue
+                    # a field of a record class of the same module: what its constructions pass
+                    if isinstance(e, ast.Attribute) and e.attr not in _KEY_IDENTITY_ATTRS and id(e) not in seen:
+                        owners = [c for t_ in drm_trees for c in ast.walk(t_) if isinstance(c, ast.ClassDef)
+                                  and any(isinstance(b, ast.AnnAssign) and isinstance(b.target, ast.Name) and b.target.id == e.attr
+                                          for b in c.body)]
+                        if len(owners) == 1:
+                            seen.add(id(e))
+                            made = []
+                            for f2 in [x for t_ in drm_trees for x in ast.walk(t_) if isinstance(x, ast.FunctionDef)]:
+                                for c2 in ast.walk(f2):
+                                    if isinstance(c2, ast.Call) and (
+                                            (call_name(c2) or '').split('.')[-1] == owners[0].name
+                                            or (call_name(c2) == 'cls' and f2 in owners[0].body)):
+                                        v = next((k.value for k in c2.keywords if k.arg == e.attr), None)
+                                        if v is not None:
+                                            made.append((v, f2, c2.lineno + 1))
+                            if made:
+                                chain.extend(made)
+                                continue
+                    b = _not_identity(e)
+                    if b is not None:
+                        bad, why = b, short(e, 70)
+                        break
+                if bad is None:
+                    rep.ok(rid, construct, key, 'identity conversions of the key set')
+                else:
+                    rep.fail(rid, construct, key,
+                             f'a key id of the pssh box is computed by `{why}`: `{short(bad, 50)}` can change its bytes, so the '
+                             'box no longer lists the key ids of the track (tenc default_KID / Representation.kids)', bad)
+    rep.extra['pssh_constructions'] = n
+
+
 def analyse(rep: Report) -> None:
     rep.explanation = (
         'Mutation inventory of generate_init_segment (every tree edit between load_fragment and '
@@ -531,9 +649,11 @@ def analyse(rep: Report) -> None:
              floor=4)
     rep.rule('R10.5', 'the drm selection parser keeps no state between listed systems', floor=1)
     rep.rule('R10.6', 'box paths name direct children (ISO/IEC 14496-12 containment)', floor=10)
+    rep.rule('R10.7', 'pssh boxes list the key ids of the key set unchanged', floor=3)
     r10_1(rep)
     r10_2(rep)
     location_gating(rep, 'R10.3')
     r10_4(rep)
     r10_5(rep)
     r10_6(rep)
+    pssh_key_ids(rep, 'R10.7')
